@@ -376,7 +376,7 @@ func (e *Engine) expandTopCall(t *Term) []*Term {
 	if !ok {
 		return nil
 	}
-	fn := call.Common().StaticCallee()
+	fn := Devirt(call.Common())
 	if fn == nil || fn.Blocks == nil || fn.Pkg == nil || !smPkgs[fn.Pkg.Pkg.Path()] {
 		return nil
 	}
